@@ -1,4 +1,4 @@
-import SslModel.Thm.C01StB
+import SslModel.Thm.C01StU
 set_option linter.unusedSimpArgs false
 set_option linter.unusedVariables false
 set_option maxRecDepth 2000
@@ -165,7 +165,7 @@ theorem lookup_single (fr : Frame) (x : String) : Env.lookup [fr] x = frameLooku
   simp only [Env.lookup]
   cases frameLookup x fr <;> rfl
 
-theorem step_E (f : Nat) (hE : PE f) (hL : PL f) (hS : PS f) (hA : PA f) (hO : PO f) (hF : PF f) (hLp : PLp f) (hW : PW f) (hWS : PWS f) :
+theorem step_E (f : Nat) (hE : PE f) (hL : PL f) (hS : PS f) (hA : PA f) (hO : PO f) (hF : PF f) (hLp : PLp f) (hW : PW f) (hWS : PWS f) (hFo : PFo f) :
     PE (f + 1) := by
   intro lp ret S g env e T σ henv hg hr hst ht
   cases e with
@@ -234,6 +234,30 @@ theorem step_E (f : Nat) (hE : PE f) (hL : PL f) (hS : PS f) (hA : PA f) (hO : P
         simp only []
         rw [hrd]
         exact ⟨S, ext_refl S, hst, vt_trans hv wty wc (sub_of_eqv ty c wty wc hev)⟩
+      | multi ms =>
+        simp only [] at h2
+        split at h2
+        · cases h2
+        · split at h2
+          · rename_i T0 hq
+            rw [(okW_ok h2).1]
+            obtain ⟨m, hm, hxm⟩ := vt_member hx
+            have wl := wfL_of_multi wta
+            have wm := wfL_memU wl hm
+            obtain ⟨wT, hmem⟩ := mutElementType_upper ms T0 wl hq
+            obtain ⟨tm, hbm, hsub⟩ := hmem m hm
+            cases m with
+            | cell c =>
+              simp only [baseCell, Option.some.injEq] at hbm
+              subst hbm
+              have wc : wf c = true := by simpa [wf] using wm
+              obtain ⟨loc, ty, rfl, hev, hl, wty⟩ := cell_shape hxm
+              obtain ⟨v, hrd, hv⟩ := storeOk_read hst hl
+              simp only []
+              rw [hrd]
+              exact ⟨S, ext_refl S, hst, vt_trans (vt_trans hv wty wc (sub_of_eqv ty c wty wc hev)) wc wT hsub⟩
+            | _ => simp [baseCell] at hbm
+          · cases h2
       | _ => simp only [] at h2; cases h2
     | not =>
       simp only [tyS] at ht
@@ -374,31 +398,37 @@ theorem step_E (f : Nat) (hE : PE f) (hL : PL f) (hS : PS f) (hA : PA f) (hO : P
       have e1 := eq_of_eqv_int (by simpa using hint)
       subst e1
       obtain ⟨k, rfl⟩ := vt_int hy
-      have cx := vt_contents hx wta
       split at h3
       · rename_i e
-        have we := (okW_ok h3).2
         rw [(okW_ok h3).1]
-        obtain ⟨t1, xs, rfl⟩ := arr_of_hasTy cx
-        obtain ⟨tx, gx⟩ := hx
-        simp only [asType, C01.sub_arr] at tx
-        cases gx with
-        | arr _ _ w1 hs1 hg1 =>
-        apply outP_liftE2 _ _ _ _ _ _ hst
-        · intro v hat
-          have hmem := atVal_mem t1 xs k v hat
-          exact ⟨sub_trans _ t1 e (good_wf_tag (hg1 v hmem)) w1 we (hs1 v hmem) tx, hg1 v hmem⟩
-        · intro sg hat
-          exact ⟨_, atVal_sig _ k sg (Or.inl ⟨t1, xs, rfl⟩) hat⟩
+        exact at_value lp ret x k _ e σ2 hst hx wta (Or.inl rfl)
       · cases h3
-        obtain ⟨str, rfl⟩ : ∃ str, x = .str str := by cases x <;> simp [hasTy] at cx; exact ⟨_, rfl⟩
-        apply outP_liftE2 _ _ _ _ _ _ hst
-        · intro v hat
-          have := index_string_yields_string str k v hat
-          obtain ⟨w, rfl⟩ : ∃ w, v = .str w := by cases v <;> simp [hasTy] at this; exact ⟨_, rfl⟩
-          exact ⟨by simp [asType, sub, eqv], Good.str _⟩
-        · intro sg hat
-          exact ⟨_, atVal_sig _ k sg (Or.inr ⟨str, rfl⟩) hat⟩
+        exact at_value lp ret x k _ .str σ2 hst hx wta (Or.inr ⟨rfl, rfl⟩)
+      · rename_i ms
+        split at h3
+        · cases h3
+        · split at h3
+          · rename_i T0 hq
+            rw [(okW_ok h3).1]
+            obtain ⟨m, hm, hxm⟩ := vt_member hx
+            have wl := wfL_of_multi wta
+            have wm := wfL_memU wl hm
+            obtain ⟨wT, hmem⟩ := indexResult_upper ms T0 wl hq
+            obtain ⟨tm, hbm, hsub⟩ := hmem m hm
+            cases m with
+            | arr e =>
+              simp only [baseIndex, Option.some.injEq] at hbm
+              subst hbm
+              have we : wf e = true := by simpa [wf] using wm
+              exact outP_mono _ _ _ _ _ _ (at_value lp ret x k (.arr e) e σ2 hst hxm wm (Or.inl rfl))
+                (fun _ v _ hv => vt_trans hv we wT hsub)
+            | str =>
+              simp only [baseIndex, Option.some.injEq] at hbm
+              subst hbm
+              exact outP_mono _ _ _ _ _ _ (at_value lp ret x k .str .str σ2 hst hxm rfl (Or.inr ⟨rfl, rfl⟩))
+                (fun _ v _ hv => vt_trans hv rfl wT hsub)
+            | _ => simp [baseIndex] at hbm
+          · cases h3
       all_goals cases h3
   | tacc a n =>
     simp only [tyS] at ht
@@ -408,24 +438,39 @@ theorem step_E (f : Nat) (hE : PE f) (hL : PL f) (hS : PS f) (hA : PA f) (hO : P
     apply outP_bind lp ret S (fun S' v => VT S' ta v) _ _ _ σ (hE lp ret S g env a ta σ henv hg hr hst hta)
     intro x σ1 S hle hst _ hx
     replace henv := envOk_mono hle henv
-    have cx := vt_contents hx wta
     split at h2
     · rename_i ts
       split at h2
       · rename_i tx' htx
         rw [(okW_ok h2).1]
-        obtain ⟨vs, rfl⟩ := tup_of_hasTy cx
-        obtain ⟨tx, gx⟩ := hx
-        simp only [asType, C01.sub_tup] at tx
-        cases gx with
-        | tup _ hgs =>
-        cases hw : vs[n]? with
-        | some w =>
-          simp only [hw]
-          exact outP_pure _ _ _ _ _ _ hst (listOk_get ts vs ⟨tx, hgs⟩ n w tx' hw htx)
-        | none =>
-          exact absurd (asTypeL_none vs n hw) (matchesL_some (asTypeL vs) ts n tx' tx htx)
+        obtain ⟨vs, w, rfl, hw, hvw⟩ := tacc_value hx htx
+        simp only [hw]
+        exact outP_pure _ _ _ _ _ _ hst hvw
       · cases h2
+    · rename_i ms
+      split at h2
+      · cases h2
+      · split at h2
+        · split at h2
+          · split at h2
+            · rename_i T0 hq
+              rw [(okW_ok h2).1]
+              obtain ⟨m, hm, hxm⟩ := vt_member hx
+              have wl := wfL_of_multi wta
+              have wm := wfL_memU wl hm
+              obtain ⟨wT, hmem⟩ := tupleElementAt_upper n ms T0 wl hq
+              obtain ⟨tm, hbm, hsub⟩ := hmem m hm
+              cases m with
+              | tup es =>
+                simp only [baseTupAt] at hbm
+                have wes : wfL es = true := by simpa [wf] using wm
+                obtain ⟨vs, w, rfl, hw, hvw⟩ := tacc_value hxm hbm
+                simp only [hw]
+                exact outP_pure _ _ _ _ _ _ hst (vt_trans hvw (wfL_memU wes (List.mem_of_getElem? hbm)) wT hsub)
+              | _ => simp [baseTupAt] at hbm
+            · cases h2
+          · cases h2
+        · cases h2
     all_goals cases h2
   | ifElse c t e =>
     simp only [tyS] at ht
@@ -705,6 +750,35 @@ theorem step_E (f : Nat) (hE : PE f) (hL : PL f) (hS : PS f) (hA : PA f) (hO : P
         exact hF lp ret S fv vs pts rt σ2 hst hfv.2 hfv.1 wtf.1 wtf.2
           ⟨matchesL_trans _ tas pts (wfL_asTypeLG vs hvs.2) (tySList_wf lp ret g args tas htas) wtf.1 hvs.1 hargs, hvs.2⟩
       · cases h3
+    | multi ms =>
+      simp only [] at h3
+      split at h3
+      · cases h3
+      · split at h3
+        · cases h3
+        · rename_i pts hp
+          split at h3
+          · rename_i rt hrt
+            split at h3
+            · rename_i hargs
+              rw [(okW_ok h3).1]
+              obtain ⟨m, hm, hfm⟩ := vt_member hfv
+              have wl := wfL_of_multi wtf
+              have wm := wfL_memU wl hm
+              obtain ⟨wpts, hpm⟩ := params_lower ms pts wl hp
+              obtain ⟨mps, mrt, rfl, hlow⟩ := hpm m hm
+              obtain ⟨wT, hrm⟩ := returnType_upper ms rt wl hrt
+              obtain ⟨tm, hbm, hsub⟩ := hrm _ hm
+              simp only [baseRet, Option.some.injEq] at hbm
+              subst hbm
+              simp only [wf, Bool.and_eq_true] at wm
+              have wtas := tySList_wf lp ret g args tas htas
+              have h1 := matchesL_trans _ tas pts (wfL_asTypeLG vs hvs.2) wtas wpts hvs.1 hargs
+              have h2 := matchesL_trans _ pts mps (wfL_asTypeLG vs hvs.2) wpts wm.1 h1 hlow
+              exact outP_mono _ _ _ _ _ _ (hF lp ret S fv vs mps mrt σ2 hst hfm.2 hfm.1 wm.1 wm.2 ⟨h2, hvs.2⟩)
+                (fun _ v _ hv => vt_trans hv wm.2 wT hsub)
+            · cases h3
+          · cases h3
     | _ => simp only [] at h3; cases h3
   | ret e =>
     cases ret with
@@ -780,6 +854,35 @@ theorem step_E (f : Nat) (hE : PE f) (hL : PL f) (hS : PS f) (hA : PA f) (hO : P
       have hsub2 : sub cty ty = true := sub_of_eqv cty ty wc wty (eqv_symm ty cty wty wc hev)
       simp only []
       exact assign_step lp ret S op loc ty cty tv T v σ2 hst hl wty wc wtv hsub1 hsub2 hv h3
+    | multi ms =>
+      simp only [] at h3
+      cases hop : assignBase op with
+      | some bop => rw [hop] at h3; cases h3
+      | none =>
+        rw [hop] at h3
+        simp only [] at h3
+        split at h3
+        · rename_i e0 A he ha
+          split at h3
+          · rename_i hs
+            rw [(okW_ok h3).1]
+            obtain ⟨m, hm, hcm⟩ := vt_member hc
+            have wl := wfL_of_multi wtt
+            have wm := wfL_memU wl hm
+            obtain ⟨wA, hmem⟩ := mutAssignType_lower ms A wl ha
+            obtain ⟨cm, rfl, hAc⟩ := hmem m hm
+            have wc : wf cm = true := by simpa [wf] using wm
+            obtain ⟨loc, ty, rfl, hev, hl, wty⟩ := cell_shape hcm
+            have hsub1 : sub ty cm = true := sub_of_eqv ty cm wty wc hev
+            have hsub2 : sub cm ty = true := sub_of_eqv cm ty wc wty (eqv_symm ty cm wty wc hev)
+            have hvc : sub tv cm = true := sub_trans tv A cm wtv wA wc hs hAc
+            simp only []
+            have hstep := assign_step lp ret S op loc ty cm tv tv v σ2 hst hl wty wc wtv hsub1 hsub2 hv
+              (by rw [hop]; simp only [hvc, if_true]; simp [okW, wtv])
+            rw [hop] at hstep
+            exact hstep
+          · cases h3
+        · cases h3
     | _ => simp only [] at h3; cases h3
   | loop body =>
     simp only [tyS] at ht
@@ -810,6 +913,29 @@ theorem step_E (f : Nat) (hE : PE f) (hL : PL f) (hS : PS f) (hA : PA f) (hO : P
       cases h3
       simp only [eval]
       exact hWS lp ret S g env x ty e body t1 t σ henv hg hr hst wty ht1 htb
+  | forE x it body =>
+    simp only [tyS] at ht
+    obtain ⟨ti, hti, h2⟩ := bind_ok ht
+    have wti := tyS_wf lp ret g it ti hti
+    simp only [eval]
+    apply outP_bind lp ret S (fun S' v => VT S' ti v) _ _ _ σ (hE lp ret S g env it ti σ henv hg hr hst hti)
+    intro itv σ1 S hle hst _ hitv
+    replace henv := envOk_mono hle henv
+    split at h2
+    · rename_i b t
+      split at h2
+      · cases h2
+      · rename_i hb
+        obtain ⟨T0, htb, h3⟩ := bind_ok h2
+        cases h3
+        have wt : wf t = true := by
+          simp only [wf, wfL, Bool.and_eq_true] at wti
+          exact wti.2.2.1
+        have henv2 : EnvOkG S ([("$iter", itv)] :: env) (("$iter", Ty.fn [] (.tup [b, t])) :: g) := by
+          have := envOkG_insert ([] :: env) g "$iter" itv _ (envOkG_push env g henv) hitv
+          simpa [Env.insert] using this
+        exact hFo lp ret S _ _ x itv body b t T0 σ1 henv2 (gwf_cons g "$iter" _ hg wti) hr hst hitv (by simpa using hb) wt htb
+    all_goals cases h2
   | brk =>
     simp only [tyS] at ht
     split at ht
